@@ -37,6 +37,8 @@ var schedScenarios = []schedScenario{
 	{"two-calls+cancel-one", 2, []string{"respond:0", "respond:1", "cancel:0"}},
 	{"two-calls+linkcancel", 2, []string{"respond:1", "linkcancel"}},
 	{"call+readerr+newcall", 1, []string{"readerr", "newcall"}},
+	{"closure-call+invoke+response+late-invoke", 0, []string{"callcb:0", "invoke:0", "respond:0", "invoke:0"}},
+	{"closure-call+invoke+cancel", 0, []string{"callcb:0", "invoke:0", "cancel:0", "invoke:0"}},
 }
 
 type schedOutcome struct {
@@ -47,7 +49,8 @@ type schedOutcome struct {
 }
 
 type echoRemote struct {
-	Echo func(ctx context.Context, tag int, s string) (string, error)
+	Echo   func(ctx context.Context, tag int, s string) (string, error)
+	WithCb func(ctx context.Context, tag int, cb func(ctx context.Context, i int) (int, error)) (string, error)
 }
 
 // runSchedOnce executes one schedule of a scenario against a fresh registry.
@@ -75,6 +78,7 @@ func runSchedOnce(sc schedScenario, prefix []int) *schedOutcome {
 	// the raw peer collects requests; "respond:c" ops answer them
 	var pmu sync.Mutex
 	reqByTag := map[int]string{} // tag -> call id
+	closureByTag := map[int]string{} // tag -> closure id sent as the second argument
 	reqSeen := sync.NewCond(&pmu)
 	go func() {
 		for {
@@ -91,8 +95,13 @@ func runSchedOnce(sc schedScenario, prefix []int) *schedOutcome {
 			if len(req.Args) > 0 {
 				json.Unmarshal(req.Args[0], &tag)
 			}
+			cid := ""
+			if len(req.Args) > 1 {
+				json.Unmarshal(req.Args[1], &cid)
+			}
 			pmu.Lock()
 			reqByTag[tag] = req.Call
+			closureByTag[tag] = cid
 			reqSeen.Broadcast()
 			pmu.Unlock()
 		}
@@ -166,6 +175,35 @@ func runSchedOnce(sc schedScenario, prefix []int) *schedOutcome {
 				sch.Trace("peer.respond", id)
 				inRes.Put(b)
 				results <- res{name: "respond"}
+			})
+		case "callcb":
+			spawn(fmt.Sprintf("call%d", c), func() {
+				v, err := remote.WithCb(ctxs[c], c, func(ctx context.Context, i int) (int, error) { return i + 1, nil })
+				results <- res{fmt.Sprintf("call%d", c), v, err}
+			})
+		case "invoke":
+			spawn(fmt.Sprintf("invoke%d#%d", c, k), func() {
+				pmu.Lock()
+				for reqByTag[c] == "" {
+					reqSeen.Wait()
+				}
+				cid := closureByTag[c]
+				pmu.Unlock()
+				b, _ := json.Marshal(map[string]any{"call": fmt.Sprintf("inv-%d-%d", c, k), "function": "CallClosure", "args": []any{cid, []any{41}}})
+				sch.Trace("peer.invoke", cid)
+				inReq.Put(b)
+				// the answer: value 42 while the call is in flight, a 'closure does not exist' error afterwards
+				ans, err := outRes.Get()
+				out := "no-answer"
+				if err == nil {
+					var r struct {
+						Value json.RawMessage `json:"value"`
+						Err   string          `json:"err"`
+					}
+					json.Unmarshal(ans, &r)
+					out = string(r.Value) + "|" + r.Err
+				}
+				results <- res{fmt.Sprintf("invoke#%d", k), out, nil}
 			})
 		case "linkcancel":
 			spawn(fmt.Sprintf("linkcancel#%d", k), func() {
@@ -265,6 +303,34 @@ func runSchedOnce(sc schedScenario, prefix []int) *schedOutcome {
 			out.Problems = append(out.Problems, fmt.Sprintf("%s failed (%v) although it was neither cancelled nor did the link end", name, r.err))
 		case r.err != nil && cancelled && !hasOp("linkcancel") && !hasOp("readerr") && !errors.Is(r.err, context.Canceled):
 			out.Problems = append(out.Problems, fmt.Sprintf("%s was cancelled but returned %v instead of the context's error", name, r.err))
+		}
+	}
+	// C12: a closure is invocable until the passing call returns and never afterwards. The lookup is the
+	// linearization point: a hit must precede the release of that registration, a miss must follow it.
+	freedAt := map[string]int{}
+	for i, e := range out.Trace {
+		if e.Point == "closure.freed" {
+			freedAt[e.Key] = i
+		}
+	}
+	registered := map[string]bool{}
+	for i, e := range out.Trace {
+		switch e.Point {
+		case "closure.registered":
+			registered[e.Key] = true
+		case "closure.hit":
+			if f, ok := freedAt[e.Key]; ok && f < i {
+				out.Problems = append(out.Problems, "C12: a closure was found by a look-up AFTER the call that passed it had released it")
+			}
+		case "closure.miss":
+			if f, ok := freedAt[e.Key]; registered[e.Key] && (!ok || f > i) {
+				out.Problems = append(out.Problems, "C12: a closure look-up failed although the call that passed it had not released it yet")
+			}
+		}
+	}
+	for name, r := range got {
+		if strings.HasPrefix(name, "invoke#") && r.val != "42|" && !strings.Contains(r.val, "closure does not exist") {
+			out.Problems = append(out.Problems, fmt.Sprintf("C12: a closure invocation was answered with %q (want the function's result or 'closure does not exist')", r.val))
 		}
 	}
 	// C04: a per-call cancellation must leave the link healthy
@@ -395,6 +461,7 @@ func subSched(args []string) {
 	var modelLines []string
 	var modelSpans [][2]int
 	var modelScheds []string
+	var modelInvokes []string
 	defer func() {
 		// trace validation: every distinct trace is replayed on the Lean endpoint model M2
 		if len(modelLines) == 0 {
@@ -414,6 +481,9 @@ func subSched(args []string) {
 					break
 				}
 				steps++
+			}
+			if bad == "" && !strings.Contains(ans[sp[1]-1], modelInvokes[i]) {
+				bad = fmt.Sprintf("closure look-ups differ: implementation %s, model %s", modelInvokes[i], ans[sp[1]-1])
 			}
 			if bad != "" {
 				// re-run that schedule in isolation before reporting: events of goroutines left over from the
@@ -441,6 +511,9 @@ func subSched(args []string) {
 							again = fmt.Sprintf("%s (step %d of %d)", x, j, len(a2))
 							break
 						}
+					}
+					if again == "" && !strings.Contains(a2[len(a2)-1], epExpectInvokes) {
+						again = fmt.Sprintf("closure look-ups differ: implementation %s, model %s", epExpectInvokes, a2[len(a2)-1])
 					}
 				}
 				if again != "" {
@@ -478,6 +551,7 @@ func subSched(args []string) {
 			seen[key] = true
 			if len(o.Problems) == 0 && len(modelSpans) < 400 {
 				ml := epLines(o.Trace)
+				modelInvokes = append(modelInvokes, epExpectInvokes)
 				modelSpans = append(modelSpans, [2]int{len(modelLines), len(modelLines) + len(ml)})
 				modelLines = append(modelLines, ml...)
 				modelScheds = append(modelScheds, fmt.Sprint(o.Schedule))
@@ -517,7 +591,7 @@ func subSched(args []string) {
 }
 
 func runSchedSuite(rep *Report, tier string, seed int64, prop string) {
-	only := map[string][]int{"C03": {5, 6, 8, 9}, "C16": {5, 6, 8, 9}}[prop]
+	only := map[string][]int{"C03": {5, 6, 8, 9}, "C16": {5, 6, 8, 9}, "C12": {10, 11}}[prop]
 	schedRule := ""
 	schedRule = "scenarios {call+response, +cancel, call+cancel, two identical responses (+cancel), response vs link cancellation, two calls with one cancelled, read error followed by a new call on the dead link}: " +
 		"the caller, its waiter, the response reader, the publishers, the canceller and a raw scripted peer run under the controlled scheduler, which explores the interleavings at the yield points of the real registry (DFS over choice vectors, capped per scenario), each scenario in a child process. " +
@@ -553,7 +627,11 @@ func runSchedSuite(rep *Report, tier string, seed int64, prop string) {
 			case strings.HasPrefix(l, "BAD "):
 				msg, schedS, _ := strings.Cut(l[4:], " | schedule=")
 				isC16 := strings.HasPrefix(msg, "C16:")
-				if (prop == "C16") != isC16 && prop != "C05" {
+				isC12 := strings.HasPrefix(msg, "C12:")
+				if prop == "C12" && !isC12 {
+					continue
+				}
+				if (prop == "C16") != isC16 && prop != "C05" && prop != "C12" {
 					continue
 				}
 				if prop == "C03" && !strings.Contains(msg, "has not returned") && !strings.Contains(msg, "returned success without") && !strings.Contains(msg, "nil error") {
@@ -618,6 +696,29 @@ func runSchedSuite(rep *Report, tier string, seed int64, prop string) {
 			}
 			rep.addViolation("property", "C05:shutdown:crash:"+stderr, "shutdown stress: the process died while a link with calls in flight was shut down: "+stderr,
 				map[string]any{"suite": "C05-shutdown", "cmd": fmt.Sprintf("bin/harness -sub shutdown %d", rounds)})
+		}
+	}
+	// ---- frames that arrive on a stream link after it ended (every word over {request, response} up to a
+	// length, ended by EOF / a decode error), in a child process
+	if prop == "C05" {
+		n := 3
+		if tier == "thorough" {
+			n = 6
+		}
+		out, se, code := runSelf("-sub", "lateframes", fmt.Sprint(n))
+		last := ""
+		for _, l := range strings.Split(out, "\n") {
+			if strings.HasPrefix(l, "SEQ ") {
+				last = l[4:]
+				rep.Evaluations++
+			}
+			if strings.HasPrefix(l, "BAD ") {
+				rep.addViolation("property", "C05:lateframes:"+l[4:], "late frames on an ended stream link: "+l[4:], map[string]any{"suite": "C05-lateframes", "cmd": fmt.Sprintf("bin/harness -sub lateframes %d", n)})
+			}
+		}
+		if code != 0 || !strings.Contains(out, "DONE ") {
+			rep.addViolation("property", "C05:lateframes:crash", fmt.Sprintf("the process died when frames arrived on a stream link after it had ended (link ended by: %s): %s", last, firstLine(se)),
+				map[string]any{"suite": "C05-lateframes", "sequence": last, "cmd": fmt.Sprintf("bin/harness -sub lateframes %d", n)})
 		}
 	}
 	// ---- panics raised by application code, each in its own child process
